@@ -187,7 +187,10 @@ int EGLPNUM_TYPENAME_ILLmps_next_field (
 	{
 		if (sscanf (state->p, "%s", state->field) == 1)
 		{
-			state->p += strlen (state->field) + 1;
+			state->p += strlen (state->field);
+			/* step over the separator, never over the end of the line buffer */
+			if (*state->p != '\0')
+				state->p++;
 			state->field_num++;
 			return 0;
 		}
